@@ -142,4 +142,30 @@ def c13 (args : List String) : String :=
   | id :: _ => id ++ " bad-op"
   | _ => "bad-op"
 
+/-- `c13e <id> <chains> <draws> ; column (f32 bits, chain-major)` → `<id> ess_from_chainstats` for that parameter: every
+    chain's tracker is fed all its draws, `W`/`var⁺` come from the trackers, the autocovariances from the draws.
+    INDET exactly as for `c12` (f32 mirror truncating elsewhere or disagreeing). -/
+def c13e (args : List String) : String :=
+  match args with
+  | id :: m :: n :: ";" :: toks =>
+    match m.toNat?, n.toNat?, parseF32s toks with
+    | some m, some n, some xs =>
+      let ch32 := chainsOfColumn m n xs 0
+      let ch64 := chainsOfColumn m n (toF64s xs) 0
+      let st32 : List (Nat × Float32 × Float32) := ch32.map fun c => let k := Mom.feed c; (k.n, k.mean, k.sm2)
+      let st64 : List (Nat × Float × Float) := ch64.map fun c => let k := Mom.feed c; (k.n, k.mean, k.sm2)
+      let wv32 := collectWV st32
+      let wv64 := collectWV st64
+      let e32 := essWith autocovBF ch32 wv32.1 wv32.2
+      let e64 := essWith autocovBF ch64 wv64.1 wv64.2
+      let t32 := truncIdx32 (pairSums e32.1)
+      let t64 := truncIdx64 (pairSums e64.1)
+      if e64.2.2.isNaN then id ++ " INDET"
+      -- `essFromChainStats ch64 st64 = e64.2.2` by `essFromChainStats_path_independent` (the brute-force form is evaluated:
+      -- the list-based circular form is cubic)
+      else if t32 == t64 && agree e64.2.2 e32.2.2 1.2e-3 then id ++ " " ++ tokD e64.2.2 else id ++ " INDET"
+    | _, _, _ => id ++ " bad-op"
+  | id :: _ => id ++ " bad-op"
+  | _ => "bad-op"
+
 end MiniMcmcVerif.Driver
